@@ -206,6 +206,30 @@ func c20CheckValues(c *fw.Ctx) {
 	} else if len(rv2.Vals) != 3 || !bytes.Equal(rv2.Vals[0], seq) || len(rv2.Vals[1]) != 0 || len(rv2.Vals[2]) != 0 || !bytes.Equal(rv2.Key, rv.Key) {
 		fail(0, "vals", fmt.Sprintf("decoded vals %v", rv2.Vals))
 	}
+	// what Marshal returns is handed to the transport, which may still be sending it when the next message is
+	// encoded (gRPC queues all but the first HTTP/2 frame by reference): it must not change afterwards
+	c.Eval(1)
+	bigSeq := encoding.NewSequence(e.EncodedWidth(), 6000)
+	bigSeq.SetUntil(dbdrv.Epoch.Add(6000 * time.Second))
+	bigSeq.UpdateValueAt(0, e, expr.Map{"a": 1}, nil)
+	bigSeq.UpdateValueAt(5999, e, expr.Map{"a": 2}, nil)
+	otherSeq := encoding.NewSequence(e.EncodedWidth(), 6000)
+	otherSeq.SetUntil(dbdrv.Epoch.Add(6000 * time.Second))
+	otherSeq.UpdateValueAt(3000, e, expr.Map{"a": 64}, nil)
+	otherSeq.UpdateValueAt(5999, e, expr.Map{"a": 128}, nil)
+	first, err1 := rpc.Codec.Marshal(&rpc.RemoteQueryResult{Key: bytemap.New(map[string]interface{}{"x": 1}), Vals: core.Vals{bigSeq}})
+	snapshot := append([]byte(nil), first...)
+	_, err2 := rpc.Codec.Marshal(&rpc.RemoteQueryResult{Key: bytemap.New(map[string]interface{}{"x": 2}), Vals: core.Vals{otherSeq}})
+	if err1 != nil || err2 != nil {
+		fail(0, "marshal-big", fmt.Sprint(err1, err2))
+	} else if !bytes.Equal(first, snapshot) {
+		fail(0, "encoded-message-overwritten-by-the-next-one", "the bytes returned by Marshal for one raw-series message changed when the next message was marshalled")
+	} else {
+		back := &rpc.RemoteQueryResult{}
+		if err := rpc.Codec.Unmarshal(first, back); err != nil || len(back.Vals) != 1 || !bytes.Equal(back.Vals[0], bigSeq) {
+			fail(0, "vals-big", fmt.Sprintf("48 KB series does not survive: err=%v", err))
+		}
+	}
 	// stats, metadata, query, follow
 	c.Eval(4)
 	st := &rpc.RemoteQueryResult{Stats: &common.QueryStats{NumPartitions: 3, NumSuccessfulPartitions: 2, LowestHighWaterMark: 5, HighestHighWaterMark: 9, MissingPartitions: []int{1}}, EndOfResults: true, Error: "boom"}
@@ -323,11 +347,19 @@ func c20CheckE2E(c *fw.Ctx, ds int) {
 
 // c20CheckCluster: the follower answers on behalf of the leader over real gRPC
 // (leader rpcserver, follower ProcessRemoteQuery).
+// c20BigDataset selects the long-series dataset of the cluster part.
+const c20BigDataset = 3
+
 func c20CheckCluster(c *fw.Ctx, ds int) {
 	base := newDir(c)
 	defer removeDir(base)
 	tdef := c10Tables()[1]
-	cl, err := cluster.Start(base+"/c", cluster.Config{Tables: []dbdrv.TableDef{tdef}, NumPartitions: 2, ManualHandlers: true, QueryTimeout: 20 * time.Second})
+	if ds == c20BigDataset {
+		// long series: every key has a point in the first and in the last period of a three-hour retention window,
+		// so each raw (unflat) row a follower returns is far larger than one HTTP/2 frame
+		tdef.Retention = 3 * time.Hour
+	}
+	cl, err := cluster.Start(base+"/c", cluster.Config{Tables: []dbdrv.TableDef{tdef}, NumPartitions: 2, ManualHandlers: true, QueryTimeout: 60 * time.Second})
 	if err != nil {
 		c.Incomplete("cluster start: " + err.Error())
 		return
@@ -341,10 +373,22 @@ func c20CheckCluster(c *fw.Ctx, ds int) {
 		return
 	}
 	defer sdb.Close()
-	for i, p := range c10FixedDatasets()[ds] {
-		pt := c10Point(i, p)
-		cl.Insert(0, "s", pt)
-		sdb.Insert("s", pt)
+	if ds == c20BigDataset {
+		n := 0
+		for _, tsv := range []int64{sec / 2, 2*3600*sec + sec/2} {
+			for k := 1; k <= 8; k++ {
+				pt := dbdrv.Point{TS: tsv, Dims: map[string]interface{}{"x": k, "y": string(rune('a' + k%3)), "r": "A"}, Vals: map[string]interface{}{"a": float64(int(1) << uint(n))}}
+				n++
+				cl.Insert(0, "s", pt)
+				sdb.Insert("s", pt)
+			}
+		}
+	} else {
+		for i, p := range c10FixedDatasets()[ds] {
+			pt := c10Point(i, p)
+			cl.Insert(0, "s", pt)
+			sdb.Insert("s", pt)
+		}
 	}
 	if !cl.Quiesce() {
 		c.Incomplete("cluster quiescence timeout")
@@ -380,7 +424,12 @@ func c20CheckCluster(c *fw.Ctx, ds int) {
 		}
 	}
 	time.Sleep(300 * time.Millisecond)
-	for qi, q := range c10Queries("tx") {
+	queries := c10Queries("tx")
+	if ds == c20BigDataset {
+		// raw series travel for queries the leader has to merge itself (no whole pushdown); flat ones as a control
+		queries = []string{"SELECT a, av FROM tx GROUP BY y", "SELECT a, mx FROM tx GROUP BY _", "SELECT a FROM tx GROUP BY y, period(1h)", "SELECT a FROM tx GROUP BY x, CROSSTAB(y)", "SELECT a, ca FROM tx GROUP BY x", "SELECT a FROM tx GROUP BY y HAVING a > 2 ORDER BY a DESC"}
+	}
+	for qi, q := range queries {
 		c.Eval(1)
 		cs := c20Case{Part: "e2e-cluster", Index: qi, Dataset: ds, SQL: q}
 		want, werr := sdb.Query(q, true)
@@ -433,7 +482,7 @@ func init() {
 		ID:          "C20",
 		Level:       "exploration",
 		NoThreads:   true,
-		Rule:        "(1) codec: every Validate()-passing expression tree of C05's generator (depth <=2 quick / <=3 thorough: aggregates plain and BOUNDED, PERCENTILE, IF with a dim condition, SHIFT, unary math, all binary ops) as a core.Field through rpc.Codec inside RemoteQueryResult.Fields: same name, text, width, validity, shift, constness, and behavioural equality (identical accumulator bytes and Get values for every update sequence of length <=3 over 8 updates; decoded expression merging original states); (2) values: every scalar type bytemap supports as dim and value through Insert and FlatRow, raw series, QueryStats, QueryMetaData, Query with and without deadline, Follow with offsets, Point; (3) end to end over real gRPC on 127.0.0.1: 20 queries × 3 datasets embedded vs rpc client/server (rows, order, field names, window, resolution), and the same through a follower answering on behalf of the leader via ProcessRemoteQuery (pushdown and non-pushdown) vs a standalone DB; non-trivial = expression with behaviour checked / query with rows",
+		Rule:        "(1) codec: every Validate()-passing expression tree of C05's generator (depth <=2 quick / <=3 thorough: aggregates plain and BOUNDED, PERCENTILE, IF with a dim condition, SHIFT, unary math, all binary ops) as a core.Field through rpc.Codec inside RemoteQueryResult.Fields: same name, text, width, validity, shift, constness, and behavioural equality (identical accumulator bytes and Get values for every update sequence of length <=3 over 8 updates; decoded expression merging original states); (2) values: every scalar type bytemap supports as dim and value through Insert and FlatRow, raw series, QueryStats, QueryMetaData, Query with and without deadline, Follow with offsets, Point; (3) end to end over real gRPC on 127.0.0.1: 20 queries × 3 datasets embedded vs rpc client/server (plus a long-series dataset whose raw rows exceed an HTTP/2 frame many times) (rows, order, field names, window, resolution), and the same through a follower answering on behalf of the leader via ProcessRemoteQuery (pushdown and non-pushdown) vs a standalone DB; non-trivial = expression with behaviour checked / query with rows",
 		Assumptions: []string{"handler availability over RPC (a partition without a connected handler) is C13's subject: such runs are marked incomplete, not violations"},
 		Shards:      func(tier string) int { return 8 },
 		Budget:      func(tier string) time.Duration { return 30 * time.Minute },
@@ -471,6 +520,10 @@ func init() {
 				if c.Mine(idx) {
 					c20CheckCluster(c, ds)
 				}
+			}
+			idx++
+			if c.Mine(idx) {
+				c20CheckCluster(c, c20BigDataset)
 			}
 			c.R.Bound = fmt.Sprintf("expression depth %d", depth)
 		},
